@@ -54,6 +54,8 @@ CONSTANTS NSplits, NRec, NOps,
           NKeys,        \* keys 1..NKeys; key k is owned by operator ((k-1) % NOps) + 1
           KeyCode,      \* key of record (sp, idx) = digit ((sp-1)*NRec + idx-1) % KeyDigits of KeyCode in base NKeys, + 1
           KeyDigits,
+          AtomicFlush,  \* TRUE = the code as it is (Flush + Reserve under flushMu); FALSE only to GENERATE the schedules
+                        \* that a non-atomic flush would admit (the real code must serialise them)
           Dev_SnapshotAfterNextRead, \* model self-test only: the split positions are taken one read after the barrier was queued
           MaxLen
 
@@ -223,7 +225,7 @@ KTimerFire ==
 
 \* flushMu.Lock + batcher.Flush(CurrentBatch)
 KTake(g) ==
-  /\ pc[g] = "flush" /\ klock = "free"
+  /\ pc[g] = "flush" /\ (AtomicFlush => klock = "free")
   /\ IF kbatch = <<>>
      THEN /\ IF g = "t"
              THEN /\ LET r == TIdle(pc, kfires) IN pc' = r[1] /\ kfires' = r[2]
@@ -233,7 +235,7 @@ KTake(g) ==
      ELSE /\ ev' = [ev EXCEPT ![g] = kbatch]
           /\ kbatch' = <<>> /\ karmed' = FALSE
           /\ pc' = [pc EXCEPT ![g] = "reserve"]
-          /\ klock' = g
+          /\ klock' = IF AtomicFlush THEN g ELSE klock
           /\ UNCHANGED <<kfires, ostr, lpend>>
   /\ Log([a |-> "KTake", g |-> g, took |-> kbatch, full |-> pc'["c"] = "flush"])
   /\ UNCHANGED <<abs, eoi, nbar, nticks, nkf, bvars, rvars, ovars>>
@@ -245,7 +247,7 @@ KReserve(g) ==
   /\ fetch' = [s \in DOMAIN fetch \cup {nextSeq} |->
                  IF s = nextSeq THEN [ev |-> ev[g], st |-> "fetching"] ELSE fetch[s]]
   /\ ev' = [ev EXCEPT ![g] = <<>>]
-  /\ klock' = "free"
+  /\ klock' = IF AtomicFlush THEN "free" ELSE klock
   /\ IF g = "t"
      THEN /\ LET r == TIdle(pc, kfires) IN pc' = r[1] /\ kfires' = r[2]
           /\ UNCHANGED <<kbatch, karmed, ostr, lpend>>
